@@ -80,6 +80,11 @@ func AmountFromString(val string) (Amount, error) {
 
 	// Parse the decimal places (if present)
 	if l == 2 {
+		if len(x[1]) > 18 {
+			// 10^19 no longer fits into 64 bits: the value would silently
+			// overflow and printing it divide by zero
+			return a, fmt.Errorf("invalid decimal number '%v', too many decimal places", val)
+		}
 		v2, err = strconv.ParseInt(x[1], 10, 64)
 		if err != nil {
 			return a, fmt.Errorf("invalid decimal number '%v', %w", val, err)
